@@ -21,7 +21,7 @@ THEOREMS = [f"NadaVerif.C08.{n}" for n in (
     "compile_mono", "lookup_append", "fuel_append", "earlier_history_irrelevant", "later_traces_irrelevant",
     "only_reachable_emitted", "related_after", "trace_shift_equivariant", "after_any_history", "shifted_lookup",
     "compile_after_history", "compile_after_history_fails", "after_history_fails_alike", "outputs_follow_registers")] + [
-    "NadaVerif.C08.later_program_nothing_missing"]
+    "NadaVerif.C08.later_program_nothing_missing", "NadaVerif.C08.after_history_same_answer", "NadaVerif.Lemmas.compile_ne_unsupported"]
 
 REG_KEYS = ("a", "b", "c", "r", "o", "f", "init", "party", "ret")
 
